@@ -136,6 +136,15 @@ def rule_c12_recording(prog: Program, col: Collector) -> None:
                   "the episode loop can end early, so the action vector starts as NaN (np.full(limit, np.nan)), not as zeros", construct="zero-padded-actions",
                   necessity="0 is the id of the empty coalition: a column that ends in zeros claims that the empty coalition - not explorable, never revealed - was chosen "
                             "repeatedly; the sibling best-states search pads with NaN")
+    if early:
+        # the gap does not change after the episode has ended: the rows that are never reached carry the last gap, not the initial 0
+        tail = [e for e in stores if e.obj == gaps and e.index is not None and e.index[0] == "slice" and e.seq < early[0].seq and
+                [f[:3] for f in e.ctx] == [f[:3] for f in early[0].ctx]]
+        last_gap = ("un", "-", ("index", step.term, ("const", 1)))
+        ok_tail = any(e.value == last_gap and e.index[1] == ("bin", "+", ep, ("const", 2)) and e.index[2] in (None, ("const", None)) for e in tail)
+        col.check(ok_tail, ref.where(early[0].node), ref.short,
+                  "before leaving the loop early the remaining gap rows are filled with the gap of the final state (gaps[episode + 2:] = -reward)", construct="zero-padded-gaps",
+                  necessity="an episode also ends when the environment's own step budget is used up: the gap is then not 0, and rows left at their initial 0.0 claim a gap the game never had")
     row0 = [e for e in stores if e.obj == gaps and e.index == ("const", 0)]
     col.check(len(row0) == 1 and row0[0].value == ("un", "-", ("attr", envp, "reward")) and row0[0].seq > resets[0].seq and row0[0].seq < step.seq,
               ref.where(row0[0].node if row0 else None), ref.short, "gaps[0] = -env.reward right after the reset", construct="row0",
@@ -147,7 +156,7 @@ def rule_c12_recording(prog: Program, col: Collector) -> None:
     col.check(okact and len(get_calls) == 1 and get_calls[0].seq < step.seq and any(f[0] == "for" and f[1] == loop[1] for f in get_calls[0].ctx),
               ref.where(step.node), ref.short, "action = get_next_step(env) is computed in the same iteration, before env.step(action)",
               construct="action-before-step", necessity="the action must be chosen at the state it is applied to")
-    rowt = [e for e in stores if e.obj == gaps and e.index != ("const", 0)]
+    rowt = [e for e in stores if e.obj == gaps and e.index != ("const", 0) and e.index[0] != "slice"]
     col.check(len(rowt) == 1 and rowt[0].index == ("bin", "+", ep, ("const", 1)) and rowt[0].value == ("un", "-", ("index", step.term, ("const", 1)))
               and rowt[0].seq > step.seq, ref.where(rowt[0].node if rowt else None), ref.short,
               "gaps[episode + 1] = -(position 1 of this iteration's step result)", construct="row-t",
